@@ -1,10 +1,15 @@
 package storeconc
 
 import (
+	"bytes"
 	"fmt"
 	"math/rand"
 	"os"
+	"runtime"
+	"sync/atomic"
 	"time"
+
+	"github.com/celestiaorg/rsmt2d"
 
 	"verifharness/storeref"
 	"verifharness/vh"
@@ -320,6 +325,101 @@ func (d *driver) scenarioSharedAccessor(blocks []*block) {
 	if !d.dead {
 		d.teardown(w, id, base)
 	}
+	rec.stop()
+	os.RemoveAll(w.dir)
+}
+
+// scenarioSecondSquareLoad: the schedule behind finding C08/data-race/...readAxisHalf+...readODS, forced
+// with the marker between the cache check and the lock in ODS.readODS. Three handles on ONE cached
+// accessor of an ODS-only block: reader W2 is held after it saw "square not loaded"; reader W1 loads
+// the square; reader R keeps reading upper-half rows (served from the loaded square); W2 is let go and
+// stores the square a second time while R is reading. Data must be right; under the race detector any
+// unsynchronised access to the accessor's square shows up here.
+func (d *driver) scenarioSecondSquareLoad(blocks []*block) {
+	if d.dead {
+		return
+	}
+	id := "scenario/second-square-load"
+	d.nw++
+	w, err := newWorld(d.root, d.nw, blocks, 0, 2)
+	if err != nil {
+		d.t.Fatal(err)
+	}
+	base := openFDs(w.dir)
+	rec.start()
+	for round := 0; round < 3 && !d.dead; round++ {
+		b := blocks[round%2]
+		d.doOp(w, nil, "PutODS", b, id)
+		var accs [3]storeAccessor
+		for i := range accs {
+			a, err := w.cs.GetByHeight(d.ctx, b.H)
+			if err != nil {
+				d.rep.Inconclusivef("%s: CachedStore.GetByHeight failed: %v", id, err)
+				d.dead = true
+				return
+			}
+			accs[i] = a
+		}
+		lower := b.Ref.OdsW // first row of the lower half: no Q4 file, so the whole ODS is loaded
+		check := func(acc storeAccessor, row int, who string) {
+			half, err := acc.AxisHalf(d.ctx, rsmt2d.Row, row)
+			if err != nil {
+				d.rep.Violate("C08/reader-saw-wrong-data/shared-cached-accessor", fmt.Sprintf("%s: %s: AxisHalf(row,%d) failed: %v", id, who, row, err), nil)
+				return
+			}
+			ext, err := half.Extended()
+			if err != nil || len(ext) != b.Ref.W {
+				d.rep.Violate("C08/reader-saw-wrong-data/shared-cached-accessor", fmt.Sprintf("%s: %s: extending row %d: %v", id, who, row, err), nil)
+				return
+			}
+			for k := range ext {
+				if !bytes.Equal(ext[k].ToBytes(), b.Ref.Cell(row, k)) {
+					d.rep.Violate("C08/reader-saw-wrong-data/shared-cached-accessor",
+						fmt.Sprintf("%s: %s: row %d share %d of height %d differs from the block", id, who, row, k, b.H),
+						map[string]any{"scenario": id, "height": b.H})
+					return
+				}
+			}
+			d.rep.Count("reads_compared", 1)
+		}
+		g := newGate("second loader after the cache check", func(e *event) bool { return e.Ev == "ods.readods.miss" })
+		rec.arm(g)
+		w2done := make(chan struct{})
+		go func() { defer close(w2done); check(accs[1], lower, "W2") }()
+		if !d.await(g.arrived, "the second loader reaching the marker in readODS", id) {
+			close(g.release)
+			return
+		}
+		check(accs[0], lower, "W1") // loads and stores the square
+		var stop atomic.Bool
+		rdone := make(chan struct{})
+		go func() {
+			defer close(rdone)
+			for i := 0; !stop.Load() && i < 200000; i++ {
+				check(accs[2], i%b.Ref.OdsW, "R")
+			}
+		}()
+		runtime.Gosched()
+		close(g.release) // W2 stores the square again
+		if !d.await(w2done, "the second loader returning", id) {
+			stop.Store(true)
+			return
+		}
+		for i := 0; i < 50; i++ {
+			runtime.Gosched()
+		}
+		stop.Store(true)
+		if !d.await(rdone, "the reader stopping", id) {
+			return
+		}
+		rec.arm()
+		for _, a := range accs {
+			a.Close()
+		}
+		d.doOp(w, nil, "RemoveODSQ4", b, id)
+	}
+	d.rep.Count("scenario_second_square_load", 1)
+	d.teardown(w, id, base)
 	rec.stop()
 	os.RemoveAll(w.dir)
 }
